@@ -769,6 +769,23 @@ fn replay(cli: &Cli, path: &std::path::Path) -> i32 {
             return EXIT_HARNESS;
         }
     };
+    let expect_abort = read_json(path).ok().and_then(|v| v.get("expect_abort").and_then(|b| b.as_bool())).unwrap_or(false);
+    if expect_abort && !cli.opts.contains_key("inner") {
+        let cell = format!("{}/{}", STATE_NAMES[case.state], VARIANT_NAMES[case.variant]);
+        let (aborted, first_panic) = replay_in_child(cli, path);
+        let rr = ReplayResult {
+            violated: aborted,
+            sig: if aborted { format!("process_abort:{}", cell) } else { "-".into() },
+            class: if aborted { "process_abort".into() } else { "-".into() },
+            message: if aborted {
+                format!("{}: the simulated process died of SIGABRT; first panic: {}", cell, first_panic)
+            } else {
+                "the execution did not abort its process".into()
+            },
+            log_hash: 0,
+        };
+        return print_replay_result(PROP, &rr);
+    }
     let silencer = StderrSilencer::new();
     let r = run_case(&case);
     drop(silencer);
@@ -1012,6 +1029,35 @@ pub fn main(cli: &Cli) -> i32 {
     let mut acc = match folded {
         Ok(Some(a)) => a,
         Ok(None) => return EXIT_OK,
+        Err(e) if e.starts_with("ABORT ") => {
+            // An execution took its (child) process down with SIGABRT: a thread of the simulated process panicked and
+            // a destructor that ran while it unwound panicked as well. Isolate the execution and report it.
+            let mut it = e.split(' ').skip(1).filter_map(|x| x.parse::<u64>().ok());
+            let (a, b) = (it.next().unwrap_or(0), it.next().unwrap_or(n));
+            let k = match isolate_abort(cli, a, b) {
+                Some(k) => k,
+                None => {
+                    eprintln!("harness error: a chunk process for executions {}..{} died of SIGABRT but no single execution does", a, b);
+                    return EXIT_HARNESS;
+                }
+            };
+            let case = gen_case(seed, k);
+            let cell = format!("{}/{}", STATE_NAMES[case.state], VARIANT_NAMES[case.variant]);
+            let mut replay_json = case.to_json();
+            replay_json["expect_abort"] = json!(true);
+            ev.evaluations = k + 1;
+            ev.rule = "batch cut short: an execution aborted its process; only that execution is reported".into();
+            ev.samples = vec![json!({"run": k, "case": case.to_json()})];
+            let v = Violation {
+                property: PROP,
+                class: "process_abort".into(),
+                sig: format!("process_abort:{}", cell),
+                message: format!("C20 run {}: {}: the simulated process died of SIGABRT - a thread panicked and a destructor that ran while it unwound panicked too (in the simulation a lock taken inside a destructor cannot be waited for while unwinding; the first panic is the defect - the replay prints it)", k, cell),
+                run_index: k,
+                replay: replay_json,
+            };
+            return conclude(cli, &mut ev, vec![v]);
+        }
         Err(e) => {
             eprintln!("harness error: {}", e);
             return EXIT_HARNESS;
